@@ -78,15 +78,17 @@ fn specfile_roundtrip(sp: &LogSpecification) -> String {
     let dir = crate::util::scratch_root().join(format!("specfile{}", N.fetch_add(1, std::sync::atomic::Ordering::SeqCst)));
     let path = dir.join("sub").join("logspec.toml");
     let res = (|| {
-        let first = Logger::with(sp.clone()).do_not_log().build_with_specfile(&path);
+        // (build() installs the logger's error channel as the process-global one: keep the harness's file there)
+        let ec = || flexi_logger::ErrorChannel::File(crate::util::errfile().clone());
+        let first = Logger::with(sp.clone()).do_not_log().error_channel(ec()).build_with_specfile(&path);
         if first.is_err() {
             return "ERR1".to_string();
         }
         drop(first);
-        let Ok((log2, _h2)) = Logger::with(LogSpecification::off()).do_not_log().build_with_specfile(&path) else {
+        let Ok((log2, _h2)) = Logger::with(LogSpecification::off()).do_not_log().error_channel(ec()).build_with_specfile(&path) else {
             return "ERR2".to_string();
         };
-        let Ok((log0, _h0)) = Logger::with(sp.clone()).do_not_log().build() else {
+        let Ok((log0, _h0)) = Logger::with(sp.clone()).do_not_log().error_channel(ec()).build() else {
             return "ERR0".to_string();
         };
         let mut probes: Vec<String> = vec!["".into(), "zzz".into(), "a".into(), "a::b::c::d".into()];
